@@ -38,7 +38,12 @@ func c02expected(v [5]int, i int) string {
 	if i < pduN && i >= relN {
 		se = "S_ACTIVE"
 	}
-	return st + "/" + se
+	// the configured number of service requests, clamped like the others: the first min(reg, pdu, svc) UEs make one each
+	svc := 0
+	if i < minInt(pduN, v[2]) {
+		svc = 1
+	}
+	return fmt.Sprintf("%s/%s/service-requests=%d", st, se, svc)
 }
 
 var c02ips = [][]byte{{10, 45, 0, 2}, {0, 0, 0, 0}, {255, 255, 255, 255}, {10, 0, 41, 0x29}, {0x59, 0x7b, 0x22, 0x25}}
